@@ -320,6 +320,18 @@ theorem abstract_suffix_fresh (useNames : Bool) (st : RState) (i : Nat) (c : Cls
   · rw [if_neg hcon]
     exact ⟨_, rfl, by simpa using hcon⟩
 
+/-- both branches on concrete containers: `a` (abstract element) next to `A` takes `_abstract`; with a
+class `a_abstract` already present that key is reserved and the numeric suffix is used instead -/
+example :
+    let a : Cls := ⟨"a".toList, true, true, "l".toList⟩
+    let cA : Cls := ⟨"A".toList, false, false, "l".toList⟩
+    let st1 : RState := ⟨[a, cA], []⟩
+    let st2 : RState := ⟨[a, cA, ⟨"a_abstract".toList, false, false, "l".toList⟩], []⟩
+    st1.cur[0]? = some a ∧ st2.cur[0]? = some a ∧
+    (addAbstractSuffix true st1 0 a).cur.map (·.qname) = ["a_abstract".toList, "A".toList] ∧
+    (addAbstractSuffix true st2 0 a).cur.map (·.qname) = ["a_1".toList, "A".toList, "a_abstract".toList] := by
+  decide +kernel
+
 /-- `RenameDuplicateClasses.should_use_names` -/
 def useNamesOf (style : Str) (cs : List Cls) : Bool :=
   Tables.requireUniqueNames.contains style || ((cs.map (·.location)).eraseDups.length == 1)
